@@ -1,7 +1,7 @@
 (* C16: extraction from every archive that satisfies the layout relation returns exactly the
    packed files; the four error cases; the reader depends on observations only. *)
 From Coq Require Import List NArith ZArith Bool Lia ZifyBool ZifyNat ZifyN Permutation.
-From Mila Require Import Lib.Bytes Lib.Machine Model.BinArchive Model.BinStreams Model.BinFormat Model.Arc
+From Mila Require Import Lib.Bytes Lib.BytesExtra Lib.Machine Model.BinArchive Model.BinStreams Model.BinFormat Model.Arc
   Proofs.AMapLemmas Proofs.BinAccess Proofs.BinAccess2 Proofs.FindLabel Proofs.ObsEqual.
 Import ListNotations.
 Local Open Scope N_scope.
@@ -425,4 +425,102 @@ Proof.
   apply (arc_range_outside m a c i w0 pre en' post Hc Hi Hw Hn Ht); [|exact B1 | exact B2].
   intros e He. specialize (Hpre e He). unfold bad in Hpre. apply andb_false_iff in Hpre.
   destruct Hpre as [F|F]; [apply N.leb_gt in F; left; lia | apply N.ltb_ge in F; right; exact F].
+Qed.
+
+(* ---------------------------------------------------------------- known finding F27: the header-detection heuristic *)
+(* The layout with an EXPLICIT padding: [arc_layout] is this relation at the padding the code's heuristic picks. *)
+Definition arc_layout_with (pad : N) (a : archive) (files : list (bytes * bytes)) : Prop :=
+  exists c i recs,
+    find_label_address a COUNT = Some c /\ find_label_address a INFO = Some i /\
+    read_u32 a c = Ok (lenL files) /\
+    table_from a i pad 0 recs /\ Forall2 (holds_file a) recs files /\ NoDup (map fst files).
+Lemma arc_layout_explicit a files :
+  arc_layout a files <-> exists w0, read_u32 a 0 = Ok w0 /\ arc_layout_with (arc_pad w0) a files.
+Proof.
+  split.
+  - intros (c & i & w0 & recs & Hc & Hi & Hw & Hn & Ht & Hf & Hnd). exists w0. split; [exact Hw|]. exists c, i, recs. repeat split; assumption.
+  - intros (w0 & Hw & c & i & recs & Hc & Hi & Hn & Ht & Hf & Hnd). exists c, i, w0, recs. repeat split; assumption.
+Qed.
+(* the 0x60-byte zero header is present *)
+Definition has_header (a : archive) : Prop := sliceN 0 HEADER_PAD (a_data a) = Some (zeros 96).
+(* what the property text describes: offsets relative to the data start (no header), or relative to the end of the header when
+   one is present *)
+Definition arc_spec (a : archive) (files : list (bytes * bytes)) : Prop :=
+  arc_layout_with 0 a files \/ (has_header a /\ arc_layout_with HEADER_PAD a files).
+(* the known finding: an UN-padded layout whose first data word is 0 - arc.rs:23 takes "first u32 = 0" for "header present" *)
+Definition KnownF27 (a : archive) (files : list (bytes * bytes)) : Prop :=
+  arc_layout_with 0 a files /\ read_u32 a 0 = Ok 0.
+
+Lemma first_word_exists a c n : read_u32 a c = Ok n -> exists w0, read_u32 a 0 = Ok w0.
+Proof.
+  intros H. destruct (proj1 (read_uint_ok_iff a c 4) (ex_intro _ n H)) as [H1 H2]. change (N.of_nat 4) with 4 in H2.
+  apply (proj2 (read_uint_ok_iff a 0 4)). change (N.of_nat 4) with 4. lia.
+Qed.
+Lemma header_first_word a : has_header a -> read_u32 a 0 = Ok 0.
+Proof.
+  unfold has_header, HEADER_PAD. intros H. destruct (sliceN_sound _ _ _ _ H) as (pre & post & E & Lp & _).
+  assert (pre = []) by (destruct pre; [reflexivity | unfold lenN in Lp; cbn in Lp; lia]). subst pre. cbn [app] in E.
+  unfold read_u32. rewrite read_uint_spec. change (N.of_nat 4) with 4.
+  assert (Hsz : 96 <= size a) by (unfold size; rewrite E, lenN_app; change (lenN (zeros 96)) with 96; lia).
+  assert (Hi : inside a 0 4 = true) by (apply inside_true; lia). rewrite Hi.
+  assert (S : sliceN 0 4 (a_data a) = Some [0;0;0;0]).
+  { rewrite E. change (zeros 96) with ([0;0;0;0] ++ zeros 92). rewrite <- app_assoc.
+    exact (sliceN_app_exact [] [0;0;0;0] (zeros 92 ++ post)). }
+  rewrite S. destruct (a_endian a); reflexivity.
+Qed.
+
+(* the proved statement, with the known finding carved out explicitly *)
+Theorem arc_extract_outside_known m a files : arc_spec a files -> ~ KnownF27 a files -> arc_from_archive m a = Ok files.
+Proof.
+  intros [U|[Hh P]] NK; apply arc_extract; apply arc_layout_explicit.
+  - pose proof U as (c & i & recs & _ & _ & Hn & _). destruct (first_word_exists a c _ Hn) as [w0 Hw].
+    exists w0. split; [exact Hw|]. unfold arc_pad. destruct (N.eqb_spec w0 0) as [Z|Z]; [|exact U].
+    exfalso. apply NK. split; [exact U|]. rewrite Hw, Z. reflexivity.
+  - exists 0. split; [apply header_first_word; exact Hh | exact P].
+Qed.
+
+(* witness 1 (reviewer's probe): un-padded, one file 00 00 00 00 AA BB at data offset 0, then Count, then Info.  The image
+   IS an un-padded layout of that file, the code (and the model, which agrees with it) answers OutOfBounds *)
+Definition f27_archive : archive :=
+  {| a_data := [0;0;0;0;0xAA;0xBB;0;0] ++ [1;0;0;0] ++ [0;0;0;0; 0;0;0;0; 6;0;0;0; 0;0;0;0];
+     a_text := [(12, [122])]; a_ptrs := []; a_labels := [(8, [COUNT]); (12, [INFO])]; a_cstrs := []; a_endian := LE |}.
+Lemma f27_is_unpadded_layout : arc_layout_with 0 f27_archive [([122], [0;0;0;0;0xAA;0xBB])].
+Proof.
+  exists 8, 12, [mkEntry [122] 0 6 0]. repeat split; try reflexivity.
+  - intros j en Hj. destruct j as [|j]; cbn in Hj; [|destruct j; discriminate]. inversion Hj; subst. exists 0. vm_compute. repeat split; reflexivity.
+  - repeat constructor.
+  - repeat constructor; cbn; intuition discriminate.
+Qed.
+Lemma f27_known : KnownF27 f27_archive [([122], [0;0;0;0;0xAA;0xBB])].
+Proof. split; [exact f27_is_unpadded_layout | reflexivity]. Qed.
+Lemma f27_rejected : forall m, arc_from_archive m f27_archive = Err EOob.
+Proof. intros m. vm_compute. reflexivity. Qed.
+
+(* witness 2: seven 8-byte files from data offset 0, the tables behind them give 0x60 bytes of slack: the code answers Ok with
+   seven entries under the right names, each holding bytes of the Count / Info tables instead of its body (silent) *)
+Definition f27_archive7 : archive :=
+  {| a_data := [0; 0; 0; 0; 170; 187; 204; 221; 17; 17; 17; 17; 17; 17; 17; 17; 18; 18; 18; 18; 18; 18; 18; 18; 19; 19; 19; 19; 19; 19; 19; 19; 20; 20; 20; 20; 20; 20; 20; 20; 21; 21; 21; 21; 21; 21; 21; 21; 22; 22; 22; 22; 22; 22; 22; 22; 7; 0; 0; 0; 0; 0; 0; 0; 0; 0; 0; 0; 8; 0; 0; 0; 0; 0; 0; 0; 0; 0; 0; 0; 1; 0; 0; 0; 8; 0; 0; 0; 8; 0; 0; 0; 0; 0; 0; 0; 2; 0; 0; 0; 8; 0; 0; 0; 16; 0; 0; 0; 0; 0; 0; 0; 3; 0; 0; 0; 8; 0; 0; 0; 24; 0; 0; 0; 0; 0; 0; 0; 4; 0; 0; 0; 8; 0; 0; 0; 32; 0; 0; 0; 0; 0; 0; 0; 5; 0; 0; 0; 8; 0; 0; 0; 40; 0; 0; 0; 0; 0; 0; 0; 6; 0; 0; 0; 8; 0; 0; 0; 48; 0; 0; 0];
+     a_text := [(60, [102; 48]); (76, [102; 49]); (92, [102; 50]); (108, [102; 51]); (124, [102; 52]); (140, [102; 53]); (156, [102; 54])]; a_ptrs := [];
+     a_labels := [(56, [COUNT]); (60, [INFO])]; a_cstrs := []; a_endian := LE |}.
+Definition f27_files7 : list (bytes * bytes) := [([102; 48], [0; 0; 0; 0; 170; 187; 204; 221]); ([102; 49], [17; 17; 17; 17; 17; 17; 17; 17]); ([102; 50], [18; 18; 18; 18; 18; 18; 18; 18]); ([102; 51], [19; 19; 19; 19; 19; 19; 19; 19]); ([102; 52], [20; 20; 20; 20; 20; 20; 20; 20]); ([102; 53], [21; 21; 21; 21; 21; 21; 21; 21]); ([102; 54], [22; 22; 22; 22; 22; 22; 22; 22])].
+Definition f27_wrong7 : list (bytes * bytes) := [([102; 48], [2; 0; 0; 0; 8; 0; 0; 0]); ([102; 49], [16; 0; 0; 0; 0; 0; 0; 0]); ([102; 50], [3; 0; 0; 0; 8; 0; 0; 0]); ([102; 51], [24; 0; 0; 0; 0; 0; 0; 0]); ([102; 52], [4; 0; 0; 0; 8; 0; 0; 0]); ([102; 53], [32; 0; 0; 0; 0; 0; 0; 0]); ([102; 54], [5; 0; 0; 0; 8; 0; 0; 0])].
+Lemma f27_7_is_unpadded_layout : arc_layout_with 0 f27_archive7 f27_files7.
+Proof.
+  exists 56, 60, [mkEntry [102; 48] 0 8 0; mkEntry [102; 49] 1 8 8; mkEntry [102; 50] 2 8 16; mkEntry [102; 51] 3 8 24; mkEntry [102; 52] 4 8 32; mkEntry [102; 53] 5 8 40; mkEntry [102; 54] 6 8 48]. repeat split; try reflexivity.
+  - intros j en Hj.
+    do 7 (destruct j as [|j]; [cbn in Hj; inversion Hj; subst; match goal with |- record_is _ _ _ _ ?e => unfold record_is; exists (ae_address e) end; vm_compute; repeat split; reflexivity|]).
+    destruct j; discriminate.
+  - repeat constructor.
+  - repeat constructor; cbn; intuition discriminate.
+Qed.
+Lemma f27_7_wrong_data : forall m, arc_from_archive m f27_archive7 = Ok f27_wrong7.
+Proof. intros m. vm_compute. reflexivity. Qed.
+Lemma f27_7_differs : f27_wrong7 <> f27_files7.
+Proof. discriminate. Qed.
+
+(* the full statement - every image the property text describes - and its refutation *)
+Definition arc_extract_full : Prop := forall m a files, arc_spec a files -> arc_from_archive m a = Ok files.
+Theorem arc_extract_full_refuted : ~ arc_extract_full.
+Proof.
+  intros H. pose proof (H Checked f27_archive _ (or_introl f27_is_unpadded_layout)) as E. rewrite f27_rejected in E. discriminate.
 Qed.
